@@ -496,6 +496,11 @@ type val0 =
 
 type row = val0 list
 
+type zpiece =
+| ZLit of string
+| ZChain
+| ZNum
+
 val capri_src : q -> q -> q -> string -> string res
 
 val scale_rms_src : q -> q -> q
@@ -767,6 +772,8 @@ val vsum : vec list -> vec
 val mean : vec list -> vec
 
 val superpose_selection : mat -> vec list -> vec list -> vec list -> vec list
+
+val centred : vec list -> vec list
 
 val xyz_of : row -> vec
 
@@ -2285,6 +2292,156 @@ val basis_eqb : string list res option -> string list res option -> bool
 val c16_sched_same : bool -> call list -> fsys -> nat list -> v
 
 val run_fs : string -> v list -> v option
+
+val zone_format_src : zpiece list
+
+val render_zone : zpiece list -> string -> z -> string
+
+val zone_line : string -> z -> string
+
+val write_zone0 : (string * z) list -> string
+
+val ws_split_aux : string -> string -> string list
+
+val ws_split : string -> string list
+
+val split_on_aux : ascii -> string -> string -> string list
+
+val split_on : ascii -> string -> string list
+
+val py_int0 : string -> z res
+
+val read_zone_line : (string * z) option -> string -> (string * z) res
+
+val read_zone_lines :
+  (string * z) option -> string list -> (string * z) list res
+
+val group_add :
+  string -> z -> (string * z list) list -> (string * z list) list
+
+val group : (string * z) list -> (string * z list) list
+
+val read_zone0 : string -> (string * z list) list res
+
+type zone = (string * z) list
+
+type resdata = (string * z list) list
+
+val cz_eqb : (string * z) -> (string * z) -> bool
+
+val cz_leb : (string * z) -> (string * z) -> bool
+
+val sorted_set_cz : (string * z) list -> zone
+
+val backbone4 : string list
+
+val pos_of : atom -> vec
+
+val compute_izone : q -> structure -> zone res
+
+val compute_lzone : structure -> zone res
+
+val resdata_of : zone -> resdata
+
+val in_resdata : resdata -> string -> z list option
+
+type key3 = (string * z) * string
+
+val key3_of : atom -> key3
+
+val key3_eqb : key3 -> key3 -> bool
+
+val in_zone_atoms : string list -> resdata -> structure -> atom list
+
+val not_in_zone_atoms : string list -> resdata -> structure -> atom list
+
+val get_xyz_by_keys : structure -> key3 list -> vec list
+
+val inter_keys : key3 list -> key3 list -> key3 list
+
+val resk_list :
+  string list option -> structure -> ((string * string) * z) list
+
+val names_of_res :
+  string list option -> structure -> ((string * string) * z) -> string list
+
+val list_eqb0 : ('a1 -> 'a1 -> bool) -> 'a1 list -> 'a1 list -> bool
+
+val check_residues :
+  bool -> string list option -> structure -> structure -> bool res
+
+val sqdev : vec -> vec -> q
+
+val msd : vec list -> vec list -> q res
+
+val irmsd_fast :
+  mat -> zone -> bool -> bool -> structure -> structure -> q res
+
+val lrmsd_fast :
+  mat -> zone -> bool -> bool -> string list -> structure -> structure -> q
+  res
+
+type key4 = ((string * z) * string) * string
+
+val key4_of : atom -> key4
+
+val key4_eqb : key4 -> key4 -> bool
+
+val first_with_key4 : key4 -> structure -> atom option
+
+val izone_rows_computed : q -> structure -> atom list res
+
+val izone_rows_from_zone : zone -> structure -> atom list
+
+val irmsd_sql : mat -> atom list -> structure -> structure -> q res
+
+val key3_first : key3 -> structure -> atom option
+
+val identical_atoms :
+  structure -> structure -> string -> string list -> vec list * vec list
+
+val lrmsd_sql : mat -> bool -> string list -> structure -> structure -> q res
+
+val is_backbone0 : atom -> bool
+
+val same_residue0 : atom -> atom -> bool
+
+val interface_atom : q -> structure -> atom -> bool
+
+val izone_spec : q -> structure -> zone
+
+val in_zone : zone -> atom -> bool
+
+val same_atom : atom -> atom -> bool
+
+val identity_pairs :
+  (atom -> bool) -> structure -> structure -> (vec * vec) list
+
+val irmsd_pairs_spec : zone -> structure -> structure -> (vec * vec) list
+
+val long_chain_spec : structure -> (string * string) option
+
+val lrmsd_pairs_spec :
+  string list -> structure -> structure -> ((vec * vec) list * (vec * vec)
+  list) option
+
+val unique_key3 : structure -> bool
+
+val consistent_resnames : structure -> structure -> bool
+
+val reported_ok : z -> q -> q -> bool
+
+val vzone : zone -> v
+
+val zone_of_V : v -> zone
+
+val vpairs : (vec * vec) list -> v
+
+val strs_of_V : v -> string list
+
+val vresZone : zone res -> v
+
+val run_rmsd : string -> v list -> v option
 
 val vresS : string res -> v
 
